@@ -241,7 +241,8 @@ class Env:
     def gen_op(self):
         rng = self.rng
         kind = rng.choice(("add", "add", "add", "replace", "replace", "delete_name", "delete_type", "delete_rds", "delete_rdatas", "delete_exact_name",
-                           "delete_exact_type", "delete_exact_rds", "update_serial", "add_wrong_class", "add_outside", "add_soa_elsewhere"))
+                           "delete_exact_type", "delete_exact_rds", "update_serial", "add_wrong_class", "add_outside", "add_soa_elsewhere",
+                           "add_empty", "replace_empty", "delete_empty"))
         owner = rng.choice(self.owners)
         nform = rng.choice(("rel", "abs", "zone"))
         op = {"kind": kind, "owner": owner, "nform": nform}
@@ -254,10 +255,12 @@ class Env:
             if t == "RRSIG":
                 vals = [v for v in vals if v.args[0] == vals[0].args[0]]
             op.update(vals=vals, ttl=rng.choice((0, 60, 300, 3600, 2**31 - 1)), aform=rng.choice(("rrset", "name_rds", "name_ttl_rdatas")))
-        elif kind in ("delete_type", "delete_exact_type"):
-            t = rng.choice(self.types)
+        elif kind in ("delete_type", "delete_exact_type", "add_empty", "replace_empty", "delete_empty"):
+            # (the *_empty forms hand over a record set that holds no records: deleting nothing changes nothing; adding or
+            # replacing with nothing is refused with ValueError, as the RRset spelling always was; an empty set is never stored)
+            t = rng.choice([x for x in self.types if x != "SOA"]) if kind.endswith("_empty") else rng.choice(self.types)
             v = self.val(t)
-            op.update(rdtype=v.rdtype, covers=(v.args[0] if t == "RRSIG" else 0), tform=rng.choice(("int", "str")))
+            op.update(rdtype=v.rdtype, covers=(v.args[0] if t == "RRSIG" else 0), tform=rng.choice(("int", "str")), aform=rng.choice(("rrset", "name_rds")))
         elif kind in ("delete_rds", "delete_exact_rds", "delete_rdatas"):
             t = rng.choice(self.types)
             vals = [self.val(t) for _ in range(rng.choice((1, 1, 2)))]
@@ -338,6 +341,12 @@ def apply_lib(env, txn, op):
             fn(name, rds[0])
         else:
             fn(name, rds)
+    elif k in ("add_empty", "replace_empty", "delete_empty"):
+        fn = {"add_empty": txn.add, "replace_empty": txn.replace, "delete_empty": txn.delete}[k]
+        if op["aform"] == "rrset":
+            fn(dns.rrset.RRset(name, dns.rdataclass.IN, op["rdtype"], op["covers"]))
+        else:
+            fn(name, dns.rdataset.Rdataset(dns.rdataclass.IN, op["rdtype"], op["covers"], 300))
     elif k == "update_serial":
         txn.update_serial(op["value"], op["relative"])
 
@@ -356,6 +365,10 @@ def apply_model(env, model, op):
         model.add(key, rdclass, v0.rdtype, covers, op["ttl"], [env.canon(v) for v in op["vals"]], k == "replace", is_apex)
     elif k in ("delete_name", "delete_exact_name"):
         model.delete_name(key, "exact" in k)
+    elif k == "delete_empty":
+        pass  # nothing named, nothing deleted (in particular not the whole name)
+    elif k in ("add_empty", "replace_empty"):
+        raise ModelReject(ValueError)  # a record set without records cannot be stored
     elif k in ("delete_type", "delete_exact_type"):
         model.delete_rdataset(key, op["rdtype"], op["covers"], "exact" in k)
     else:
